@@ -363,4 +363,9 @@ example :
       | .unidentifiable _ => []) = [(1, .bitfinex, 5)] := by
   decide
 
+/-- Non-market messages (heartbeats, venue errors, command responses) are never attributed to any
+instrument and never rejected: they yield nothing, whatever is subscribed. -/
+theorem noise_yields_nothing (p : Pair) (m : IMap) (n : Noise) :
+    transformNoise p m n = .events [] := rfl
+
 end BarterModel.Props.C13
